@@ -5,7 +5,8 @@ from contracts import tc
 
 FUNCS = ['ThresholdCounter.add', 'ThresholdCounter.__getitem__', 'ThresholdCounter.get',
          'ThresholdCounter.__contains__', 'ThresholdCounter.__len__', 'ThresholdCounter.get_common_count',
-         'ThresholdCounter.get_uncommon_count', 'ThresholdCounter.itervalues', 'ThresholdCounter.iteritems', 'ThresholdCounter.values']
+         'ThresholdCounter.get_uncommon_count', 'ThresholdCounter.itervalues', 'ThresholdCounter.iteritems', 'ThresholdCounter.values',
+         'ThresholdCounter.items', 'ThresholdCounter.keys']
 
 
 def run(ded, repo, tier):
@@ -17,4 +18,4 @@ def run(ded, repo, tier):
     ded.assume('integers are mathematical (exact for Python ints)')
     ded.assume('int(1/threshold) is the intended floor(1/threshold)')
     ded.assume('update(): the argument is a finite sequence of keys, a dict of key -> int count, or keyword counts; the proved post is invariant + one add() per key (sequence) / count adds per key (inner loop of the mapping form); the exact total for the mapping form (sum of counts) is bounded only')
-    ded.trust('not under contract (bounded only): __init__, most_common, elements, items()/keys() (itervalues, iteritems and values() are under contract: every tracked key exactly once with its tracked count); get_common_count is the sum of the tracked counts as an uninterpreted sum over the keys (no arithmetic facts about the sum), get_uncommon_count is total minus that')
+    ded.trust('not under contract (bounded only): __init__, most_common, elements, get_commonality (itervalues, iteritems, values(), items() and keys() are under contract: every tracked key exactly once, with its tracked count); get_common_count is the sum of the tracked counts as an uninterpreted sum over the keys (no arithmetic facts about the sum), get_uncommon_count is total minus that')
